@@ -17,6 +17,10 @@
   'unwind_quick':7, 'unwind_thorough':8, 'bound':'pool of 4 / 5 slots (one of them free, at most one deleted slot under the cursor)',
   'claims':'the insert opcode body links the new slot before the first non-deleted slot at or after the cursor (or at the end): list well-formed, count + 1, all other slots keep their order; the new slot takes before/after/original from its neighbours (so they stay valid char-info indices)'}@*/
 
+/*@unit {'name':'c05_assoc_op', 'props':['C05','C02'], 'entry':'h_assoc', 'kind':'bounded', 'defines_quick':['NSLOTS=3','OPCODES','ASSOC'], 'defines_thorough':['NSLOTS=4','OPCODES','ASSOC'],
+  'unwind_quick':5, 'unwind_thorough':6, 'unwindset':['h_assoc.0:66'], 'bound':'at most 3 / 4 slot references in the parameter list; pool of 3 / 4 slots',
+  'claims':'the assoc opcode body reads exactly 1 + num parameter bytes, resolves every reference through slotat (inside the slot map), and sets the current slot to the hull [min before, max after] of the referenced slots: when those have 0 <= before <= after < n so has the current slot afterwards; with no resolvable reference it changes nothing; no other slot is written'}@*/
+
 /*@include slots.tc@*/
 
 /* Segment::getSlotBidiClass caches glyphAttr(gid, aBidi) in the slot: for the list structure only "some class per slot,
@@ -55,6 +59,13 @@ static Slot *Segment_newSlot_0(Segment *s) { (void)s; Slot *r = g_free; g_free =
 /*@extract {'if':'OPCODES', 'file':'src/inc/opcodes.h', 'kind':'startop', 'name':'insert',
    'subs':[[r'&smap\[-1\]', '(&smap.m_slot_map[0])', 0]],
    'methods':['decMax','newSlot','isDeleted','prev','next','first','last','before','after','originate','original','defaultOriginal','highwater','highpassed','extendLength']}@*/
+#ifdef ASSOC
+/*@extract {'if':'ASSOC', 'file':'src/inc/opcodes.h', 'kind':'define', 'name':'use_params'}@*/
+/*@extract {'if':'ASSOC', 'file':'src/inc/opcodes.h', 'kind':'define', 'name':'declare_params'}@*/
+/*@extract {'if':'ASSOC', 'file':'src/inc/Rule.h', 'sig': r'Slot \* \* SlotMap::end\(\)', 'emit':'static Slot **SlotMap_end_0(SlotMap *self)', 'self':['m_slot_map','m_size']}@*/
+/*@extract {'if':'ASSOC', 'file':'src/inc/opcodes.h', 'kind':'define', 'name':'slotat', 'subs':[[r'&smap\[-1\]', '(&smap.m_slot_map[0])', 0], [r'smap\.end\(\)', 'SlotMap_end_0(&smap)', 0], [r'Machine::', '', 0]]}@*/
+/*@extract {'if':'ASSOC', 'file':'src/inc/opcodes.h', 'kind':'startop', 'name':'assoc', 'casts':True, 'methods':['before','after']}@*/
+#endif
 #undef dp
 #undef sp
 #undef reg
@@ -172,6 +183,44 @@ void h_insert(void)
         __CPROVER_assert(iss0 == (Slot *)0 ? sg.m_last == fresh : fresh->m_next == iss0, "insert: placed before the first live slot at or after the cursor, or at the end when there is none");
         __CPROVER_assert(fresh->m_before < M && fresh->m_after < M && fresh->m_original < M, "insert: before/after/original of the new slot are valid char-info indices");
     }
+    CANARY();
+}
+#endif
+
+#if defined(OPCODES) && defined(ASSOC)
+void h_assoc(void)
+{
+    Segment sg; SlotMap sm; regbank rb; status_t st;
+    havoc_links();
+    sg.m_first = pick_slot(); sg.m_last = pick_slot();
+    setup_vm(&sg, &sm, &rb, &st);
+    for (int i = 0; i < 65; ++i) sm.m_slot_map[i] = pick_slot();
+    sm.m_size = nondet_unsigned(); __CPROVER_assume(sm.m_size <= 64);                    /* m_size <= MAX_SLOTS: unit c02_run_fsm */
+    rb.map = &sm.m_slot_map[1 + (nondet_unsigned() % 64)];                             /* the map cursor is inside the slot map */
+    rb.is = pick_slot(); __CPROVER_assume(rb.is);                                       /* a rule action runs with a current slot */
+    int n = nondet_int(); __CPROVER_assume(n >= 1 && n <= 1000);                        /* number of characters of the segment */
+    for (int i = 0; i < NSLOTS; ++i) __CPROVER_assume(0 <= g_pool[i].m_before && g_pool[i].m_before <= g_pool[i].m_after && g_pool[i].m_after < n);   /* C05 invariant on every slot before the action */
+    unsigned w_num = nondet_unsigned(); __CPROVER_assume(w_num <= NSLOTS);
+    byte *prm = malloc(1 + w_num); __CPROVER_assume(prm);                                /* exactly the parameter bytes the loader granted: 1 + num (validate_opcode: unit c02_fetch_opcode) */
+    prm[0] = (byte)w_num;
+    Slot saved[NSLOTS]; for (int i = 0; i < NSLOTS; ++i) saved[i] = g_pool[i];
+    Slot *cur = rb.is;
+    const byte *dpv = prm; stack_t *spv = 0;
+    bool cont = assoc(&dpv, &spv, 0, &rb);
+    __CPROVER_assert(cont && dpv == prm + 1 + w_num, "assoc consumes exactly 1 + num parameter bytes and continues");
+    __CPROVER_assert(0 <= cur->m_before && cur->m_before <= cur->m_after && cur->m_after < n, "assoc: the current slot still has 0 <= before <= after < n");
+    bool any = false; int mn = 0, mx = 0;
+    for (unsigned k = 0; k < NSLOTS; ++k) if (k < w_num) {
+        int sr = (int8)prm[1 + k];
+        Slot **cell = rb.map + sr;
+        /* slotat(sr): NULL when the reference leaves the window [first cell, end) */
+        Slot *ts = (cell < &sm.m_slot_map[0] || cell >= &sm.m_slot_map[1] + sm.m_size) ? (Slot *)0 : *cell;
+        if (ts) { int b = saved[IDX(ts)].m_before, a = saved[IDX(ts)].m_after; if (!any || b < mn) mn = b; if (!any || a > mx) mx = a; any = true; }
+    }
+    if (any) __CPROVER_assert(cur->m_before == mn && cur->m_after == mx, "assoc: before/after become the hull of the referenced slots (values before the action)");
+    else     __CPROVER_assert(cur->m_before == saved[IDX(cur)].m_before && cur->m_after == saved[IDX(cur)].m_after, "assoc without a resolvable reference changes nothing");
+    for (int i = 0; i < NSLOTS; ++i) if (&g_pool[i] != cur)
+        __CPROVER_assert(g_pool[i].m_before == saved[i].m_before && g_pool[i].m_after == saved[i].m_after && g_pool[i].m_next == saved[i].m_next && g_pool[i].m_prev == saved[i].m_prev, "assoc writes no other slot");
     CANARY();
 }
 #endif
